@@ -201,6 +201,19 @@ def _compare(ctx, live, model, wit, step):
     return True
 
 
+def _one_shot(ctx, built, salt):
+    """extend()/+= accept any iterable of children: sometimes hand over a one-shot iterator instead of the container."""
+    if isinstance(built, (list, tuple)) and (len(built) + salt) % 4 == 0:
+        ctx.count("one_shot_iterables")
+        kind = (len(built) + salt) % 3
+        if kind == 0:
+            return iter(built)
+        if kind == 1:
+            return (x for x in built)
+        return map(lambda x: x, built)
+    return built
+
+
 def step_op(step):
     return step.split(":")[-1] if isinstance(step, str) else ""
 
@@ -313,10 +326,10 @@ def run_history(ctx, h):
             if o == "append":
                 target.append(*built)
             elif o == "extend":
-                target.extend(built)
+                target.extend(_one_shot(ctx, built, si))
             elif o == "iadd":
                 keep = live
-                live += built
+                live += _one_shot(ctx, built, si)
                 if live is not keep:
                     ctx.violation("iadd-not-in-place", "+= returned a different object", dict(wit, step=step))
                     return
